@@ -215,7 +215,12 @@ func (c *Check) fixedC11() []*plan.Plan {
 }
 
 func (c *Check) randC11(r *gen.Rand, run int, seed uint64) *plan.Plan {
-	batch := gen.Pick(r, []string{"maporder", "maporder", "history", "delivery", "childorder"})
+	batch := gen.Pick(r, []string{"maporder", "maporder", "history", "delivery", "childorder", "pagers"})
+	if batch == "pagers" {
+		q := c.pagerPlan(r, run, seed, true)
+		q.Batch = "maporder"
+		return q
+	}
 	p := c.newPlan(batch, run, seed, "bubble")
 	switch batch {
 	case "maporder":
@@ -554,7 +559,40 @@ func (c *Check) randOp(r *gen.Rand, p *plan.Plan, docs []gen.GenDoc, faults bool
 	}
 }
 
+// pagerPlan: small pager-dominated pages under both pagination algorithms and
+// the page URLs that fit (or nearly fit) the pager, over document, sub-element
+// and detached roots.
+func (c *Check) pagerPlan(r *gen.Rand, run int, seed uint64, mapOrder bool) *plan.Plan {
+	p := c.newPlan("pagers", run, seed, "bubble")
+	var ops []plan.Op
+	for i := 0; i < 6; i++ {
+		d := gen.PagerDoc(r.U64())
+		c.noteDoc(d)
+		id := fmt.Sprintf("d%d", i)
+		p.Docs = append(p.Docs, plan.NewDoc(id, d.Bytes, d.Origin))
+		t := plan.Tree{ID: "t" + id, Doc: id, Root: "document"}
+		if r.P(1, 5) {
+			t.Root = fmt.Sprintf("node:%d", r.Intn(12))
+			t.Detached = r.Bool()
+		}
+		p.Trees = append(p.Trees, t)
+		for a := uint(0); a < 2; a++ {
+			o := optWithURL(fmt.Sprintf("o%s_%d", id, a), d.URL, a, 0)
+			p.Options = append(p.Options, o)
+			ops = append(ops, plan.Op{Op: "Apply", Tree: t.ID, Opt: o.ID})
+		}
+	}
+	p.Tasks = [][]plan.Op{ops}
+	if mapOrder {
+		p.MapOrder = gen.RandMapOrder(r)
+	}
+	return p
+}
+
 func (c *Check) randC01(r *gen.Rand, run int, seed uint64) *plan.Plan {
+	if r.P(1, 4) {
+		return c.pagerPlan(r, run, seed, false)
+	}
 	p := c.newPlan("random", run, seed, "bubble")
 	nd := r.Range(1, 3)
 	var docs []gen.GenDoc
